@@ -225,6 +225,9 @@ func c10SweepExec(ctx *vk.Ctx, c c10SweepCase) error {
 		}
 		t := c.T
 		t.Gas = need + delta
+		if t.Gas < 1 {
+			t.Gas = 1 // a declared gas wanted must be positive to be a valid tx
+		}
 		x.Begin()
 		if join {
 			for _, p := range c.Prefix[len(c.Prefix)-1] {
